@@ -154,8 +154,14 @@ def run(tier):
                                       "name": name})
                     except Exception as e:
                         rep.violation(f"C12|import-raises|index|{type(e).__name__}", f"index-based import raised on {name}", {})
+                # delocalised ions: the partial double bonds that only appear in other resonance structures have no
+                # configuration in the SMILES (the stereoisomer is not fully specified), so a re-parsed spelling may
+                # legitimately import another arrangement there; only the renumbering (same bond order) is compared
+                charged = any(a.GetFormalCharge() != 0 for a in iso.GetAtoms())
                 for v in range(n_var):
                     kind = ("respell", "renumber", "shuffle-bonds")[v % 3]
+                    if charged and kind != "renumber":
+                        kind = "renumber"
                     try:
                         if kind == "respell":
                             m2, how = rdk.respell(iso, rnd)
